@@ -15,7 +15,8 @@ EXPLANATION = (
     'challenge (b64(sha1(State.key + RFC GUID))) and of the key sent in the request (same storage, single per-State '
     'writer from os.urandom(16)), exactness of the Accept comparison (no case/content normalisation), the request '
     'header table, the 16 KiB bound enforced in both arms of the read-until loop, Ready construction only in the '
-    'else-arm with unswapped protocol/extension results, and nothing yielded after Rejected.')
+    'else-arm with unswapped protocol/extension results, and nothing yielded after Rejected.'
+    ' Also decided: package-wide isolation (objects created once per class or per function definition - class-level attributes, parameter defaults - are only read), so that no buffer, validator, cache, lock or option table is shared between connections by accident.')
 NOT_DECIDED = 'header-syntax corner cases as values; URL parsing by urlparse'
 ASSUMPTIONS = ['hashlib.sha1 / base64.b64encode are correct', 'os.urandom is random']
 
